@@ -87,6 +87,7 @@ func init() {
 				{Name: "lexer-bytes", Pkg: pkgSchema, Harness: "HarnessC12Lexer", Params: map[string]int64{"n": pick(tier, 3, 5), "alphabet": 0}, Reach: []string{"c12.lexer.eof", "c12.lexer.error"}},
 				{Name: "parse-bytes", Pkg: pkgSchema, Harness: "HarnessC12ParseBytes", Params: map[string]int64{"n": pick(tier, 3, 4), "alphabet": 0}, Reach: []string{"c12.parse.accepted", "c12.parse.rejected"}},
 				{Name: "error-rendering", Pkg: pkgSchema, Harness: "HarnessC12ErrorRendering", Params: map[string]int64{"n": pick(tier, 3, 5)}, Reach: []string{"c12.render"}},
+				{Name: "pumped-lexemes", Pkg: pkgSchema, Harness: "HarnessC12Pump", Params: map[string]int64{}, Reach: []string{"c12.pump.returned"}},
 				{Name: "parser-tokens", Pkg: pkgSchema, Harness: "HarnessC12ParserTokens", Params: map[string]int64{"L": pick(tier, 4, 6)}, Overrides: map[string]string{"(*github.com/ory/keto/internal/schema.lexer).nextNonCommentItem": "verifNextToken12"}, Reach: []string{"c12.tokens.done"}, Budget: time.Duration(pick(tier, 240, 1800)) * time.Second},
 			}
 		},
@@ -95,6 +96,7 @@ func init() {
 				"lexer":           "every byte string of length 0.." + itoa(pick(tier, 3, 5)) + " (all 256 byte values, symbolic)",
 				"parse":           "every byte string of length 0.." + itoa(pick(tier, 3, 4)) + " through Parse and error rendering",
 				"error rendering": "inputs of length 0.." + itoa(pick(tier, 3, 5)) + " over {\\n,' ',a,\\t,0xC3,0xA9,0xFF}, every 0 <= Start <= End <= len",
+				"pumped lexemes":  "46 lexemes (every single-rune token, operators, identifiers, keywords, string and comment openers, invalid bytes, small token groups) x repetition 19, 20, 21, 22, 41, 64 x separator {none, blank, newline} x 3 prefixes x 3 suffixes, concrete text through the real lexer (items channel of capacity 20) and parser",
 				"parser tokens":   "every token sequence of length <= " + itoa(pick(tier, 4, 6)) + " over the token alphabet after 'class N implements Namespace {' (viable prefixes, by forking)",
 			}
 		},
@@ -154,6 +156,7 @@ func engineRun(name, harness string, params map[string]int64) Run {
 func init() {
 	register(&Property{
 		ID:          "C01",
+		Preflight:   [][2]string{{"TestVerifShapes", pkgZZ}},
 		Patterns:    append(append([]string{}, enginePatterns...), sqlPatterns...),
 		HarnessDirs: []string{"internal/check/zzverif", "internal/persistence/sql"},
 		ReplayTags:  "sqlite",
@@ -200,6 +203,7 @@ func init() {
 func init() {
 	register(&Property{
 		ID:          "C02",
+		Preflight:   [][2]string{{"TestVerifShapes", pkgZZ}},
 		Patterns:    enginePatterns,
 		HarnessDirs: []string{"internal/check/zzverif"},
 		ReplayTags:  "sqlite",
@@ -220,19 +224,28 @@ func init() {
 	})
 	register(&Property{
 		ID:          "C03",
-		Patterns:    enginePatterns,
-		HarnessDirs: []string{"internal/check/zzverif"},
+		Patterns:    append(append([]string{}, enginePatterns...), sqlPatterns...),
+		HarnessDirs: []string{"internal/check/zzverif", "internal/persistence/sql"},
 		ReplayTags:  "sqlite",
-		Assumptions: engineAssumptions,
+		Assumptions: append(append([]string{}, engineAssumptions...), sqlAssumptions...),
 		Outside:     append([]string{"batch handlers' mapping of Membership to 'allowed' (covered with the transports, C08)"}, engineOutside...),
 		Bounds: func(tier string) map[string]interface{} {
-			return map[string]interface{}{"rows": pick(tier, 1, 2), "objects": 2, "failing call": "symbolic k over every storage call position of the fault-free run (+2), transient or persistent (symbolic flag)", "configurations": "operator set (quick) / every operator pair (thorough), both modes"}
+			return map[string]interface{}{"rows": pick(tier, 1, 2), "objects": 2, "failing call": "symbolic k over every storage call position of the fault-free run (+2), transient or persistent (symbolic flag)", "configurations": "operator set (quick) / every operator pair (thorough), both modes",
+				"sql layer": "GetRelationTuples / ExistsRelationTuples / TraverseSubjectSetExpansion / TraverseSubjectSetRewrite of the real persister on an arbitrary model table of " + itoa(pick(tier, 2, 3)) + " rows, the 1st, 2nd or 3rd database operation of the call failing"}
 		},
-		NoReplay:    map[string]string{"HarnessC03": "the fault is injected into the storage model; the real persister has no fault hook (the counterexample is reported with the symbolic trace)"},
+		NoReplay:    map[string]string{"HarnessC03": "the fault is injected into the storage model; the real persister has no fault hook (the counterexample is reported with the symbolic trace)", "HarnessC03SQLFaults": "fault injection at the pop boundary of the database model"},
 		Runs: func(tier string) []Run {
 			a := engineRun("fault-at-k", "HarnessC03", map[string]int64{"family": pick(tier, 4, 1), "K": pick(tier, 1, 2), "objs": 2, "G": 12, "W": 64, "alts": 2, "setSubjects": 0})
 			a.Reach = []string{"c03.fault-injected"}
-			return []Run{a}
+			// Lemma PF: a failing database operation inside one read call of the real SQL layer surfaces as an error
+			ov := map[string]string{}
+			for k, v := range dbOverrides {
+				ov[k] = v
+			}
+			ov["(*github.com/ory/keto/internal/driver/config.Config).StrictMode"] = "dbCfgStrictMode"
+			ov["(*github.com/ory/keto/internal/driver/config.Config).NamespaceManager"] = "dbCfgNamespaceManager"
+			b := Run{Name: "lemma-PF-sql-read-calls-propagate-database-errors", Pkg: pkgSQL, Harness: "HarnessC03SQLFaults", Params: map[string]int64{"K": pick(tier, 2, 3)}, Overrides: ov, Reach: []string{"c03.sql.returned", "c03.sql.fault-hit"}}
+			return []Run{a, b}
 		},
 	})
 }
@@ -366,10 +379,11 @@ var handlerOverrides = map[string]string{
 func init() {
 	register(&Property{
 		ID:          "C13",
-		Patterns:    append([]string{pkgRts, "github.com/ory/keto/internal/x/validate"}, enginePatterns...),
-		HarnessDirs: []string{"internal/check", "internal/relationtuple", "internal/expand"},
+		Patterns:    append(append([]string{pkgRts, "github.com/ory/keto/internal/x/validate"}, enginePatterns...), sqlPatterns...),
+		HarnessDirs: []string{"internal/check", "internal/relationtuple", "internal/expand", "internal/persistence/sql"},
+		NoReplay:    map[string]string{"HarnessC13PageSize": "arbitrary symbolic table of the database model"},
 		Assumptions: []string{"request values are arbitrary inhabitants of the request types (every optional pointer nil or not, repeated fields of length 0..limit+1, JSON arrays may hold null elements, numbers fully symbolic, names from pools of known/unknown namespaces and opaque strings)", "JSON decoding stubbed as 'arbitrary value of the static type or an error'", "engine core summarised by an uninterpreted function (fresh symbolic result per distinct argument tuple)", "status of an error computed as herodot does (first StatusCodeCarrier in the chain, else 500)"},
-		Outside:     []string{"HTTP parsing, routers, middleware, protobuf and JSON wire decoding"},
+		Outside:     []string{"HTTP parsing, routers, middleware, protobuf and JSON wire decoding", "a page size whose successor overflows reaches the database as a negative LIMIT: SQLite reads it as 'no limit' (modelled), MySQL and PostgreSQL reject the statement (not modelled)"},
 		Runs: func(tier string) []Run {
 			a := Run{Name: "check-grpc", Pkg: pkgCheck, Harness: "HarnessC13CheckGRPC", Params: map[string]int64{"batch": pick(tier, 1, 2), "depths": pick(tier, 0, 1)}, Overrides: handlerOverrides, Reach: []string{"c13.grpc.check", "c13.grpc.batch"}}
 			b := Run{Name: "check-rest", Pkg: pkgCheck, Harness: "HarnessC13CheckREST", Params: map[string]int64{"batch": pick(tier, 1, 2), "depths": pick(tier, 0, 1)}, Overrides: handlerOverrides, Reach: []string{"c13.rest.get", "c13.rest.post", "c13.rest.batch"}}
@@ -386,7 +400,9 @@ func init() {
 				"(*net/url.URL).Query":                                                  "verifURLQuery",
 			}
 			e := Run{Name: "expand", Pkg: "github.com/ory/keto/internal/expand", Harness: "HarnessC13Expand", Params: map[string]int64{}, Overrides: exOv, Reach: []string{"c13.expand.grpc", "c13.expand.rest"}}
-			return []Run{a, b, c, d, e}
+			f := sqlRun("sql-list-any-page-size", "HarnessC13PageSize", map[string]int64{"K": pick(tier, 2, 3)})
+			f.Reach = []string{"c13.sql.list"}
+			return []Run{a, b, c, d, e, f}
 		},
 	})
 }
@@ -396,13 +412,14 @@ func init() {
 		ID:          "C08",
 		Patterns:    append([]string{pkgRts}, enginePatterns...),
 		HarnessDirs: []string{"internal/check"},
-		NoReplay:    map[string]string{"HarnessC08Single": "the engine core is an uninterpreted function in this harness; natively the real engine answers", "HarnessC08Batch": "the engine core is an uninterpreted function in this harness; natively the real engine answers"},
-		Assumptions: []string{"engine core summarised by an uninterpreted function: one fresh symbolic (membership, error) per distinct (mapped tuple, depth), so the statement holds for every possible engine behaviour", "JSON decoding stubbed; herodot writer replaced by a capturing writer; (*url.URL).Query and (*http.Request).Context stubbed", "names: opaque symbolic strings; namespaces from {N known, X unknown}"},
+		NoReplay:    map[string]string{"HarnessC08Single": "the engine core is an uninterpreted function in this harness; natively the real engine answers", "HarnessC08Batch": "the engine core is an uninterpreted function in this harness; natively the real engine answers", "HarnessC08BatchNames": "the engine core is an uninterpreted function in this harness; natively the real engine answers"},
+		Assumptions: []string{"engine core summarised by an uninterpreted function: one fresh symbolic (membership, error) per distinct (mapped tuple, depth), so the statement holds for every possible engine behaviour", "JSON decoding stubbed; herodot writer replaced by a capturing writer; (*url.URL).Query and (*http.Request).Context stubbed", "names: opaque symbolic strings; namespaces from {N known, X unknown}; in the run batch-names-with-separators concrete names containing ':' '#' '@' so that different relationships have equal textual renderings"},
 		Outside:     []string{"HTTP routing and middleware, JSON/protobuf wire formats", "batches larger than 2"},
 		Runs: func(tier string) []Run {
 			a := Run{Name: "single", Pkg: pkgCheck, Harness: "HarnessC08Single", Params: map[string]int64{"depths": 0}, Overrides: handlerOverrides, Reach: []string{"c08.single"}}
 			b := Run{Name: "batch", Pkg: pkgCheck, Harness: "HarnessC08Batch", Params: map[string]int64{"depths": 0}, Overrides: handlerOverrides, Reach: []string{"c08.batch"}}
-			return []Run{a, b}
+			c := Run{Name: "batch-names-with-separators", Pkg: pkgCheck, Harness: "HarnessC08BatchNames", Params: map[string]int64{"depths": 0}, Overrides: handlerOverrides, Reach: []string{"c08.batch"}}
+			return []Run{a, b, c}
 		},
 	})
 }
@@ -419,7 +436,7 @@ func init() {
 		Runs: func(tier string) []Run {
 			var out []Run
 			for _, r := range c13.Runs(tier) {
-				if r.Name == "relationtuple-write" {
+				if r.Name == "relationtuple-write" || r.Name == "sql-list-any-page-size" {
 					continue
 				}
 				r.Name = "read-" + r.Name
@@ -465,10 +482,12 @@ func init() {
 			a.Race = true
 			a.Reach = []string{"c14.concurrent"}
 			b := Run{Name: "registry-lazy-init", Pkg: "github.com/ory/keto/internal/driver", Harness: "HarnessC14RegistryInit", Params: map[string]int64{}, Delay: 1, Race: true, Reach: []string{"c14.registry"}}
-			return []Run{a, b}
+			c := engineRun("batch-entries-vs-alone", "HarnessC14Batch", map[string]int64{"family": 0, "K": 3, "objs": 2, "shapes": pick(tier, 1, 0), "modes": pick(tier, 1, 0)})
+			c.Reach = []string{"c14.batch"}
+			return []Run{a, b, c}
 		},
 		Bounds: func(tier string) map[string]interface{} {
-			return map[string]interface{}{"requests": 2, "rows": 1, "delay bound": 1, "configurations": []string{"schemaless, default mode", "plain / schemaless / subject-set typed, both modes"}[pick(tier, 0, 1)]}
+			return map[string]interface{}{"requests": 2, "rows": 1, "batch": "2 entries (the same relationship twice, or two different ones) over 3 symbolic rows, 2 objects, delay bound 0", "delay bound": 1, "configurations": []string{"schemaless, default mode", "plain / schemaless / subject-set typed, both modes"}[pick(tier, 0, 1)]}
 		},
 	})
 }
